@@ -393,8 +393,16 @@ def _c11_jobs(tier):
 
 PLANS['C11'] = dict(
     engine='reent', level='fault_enumeration', jobs=_c11_jobs,
-    minimums=lambda t: {'cells_reached': 3000, 'audited_dicts': 1000, 'warm[hit]': 1000, 'leak_scenarios': 30, 'thread_lookups': 20000,
-                        'thread_mutations': 200, 'subrace_probes': 1000, 'mutrace_mutations': 600, 'mutrace_lookups': 5000, 'parked_rebase_schedules': 4},
+    minimums=lambda t: dict({'cells_reached': 3000, 'audited_dicts': 1000, 'warm[hit]': 1000, 'leak_scenarios': 60, 'thread_lookups': 20000,
+                             'thread_mutations': 200, 'subrace_probes': 1000, 'mutrace_mutations': 600, 'mutrace_lookups': 5000,
+                             'parked_rebase_schedules': 4, 'scheduled_rebuild_schedules': 4, 'mutrace_rebuilds': 20,
+                             'super_self_factory_checks': 100, 'action[reenter_then_base]': 100},
+                            # every callback point of the fault model must have been reached (a point whose hook is lost in a
+                            # refactoring would otherwise go unnoticed)
+                            **{'reached[%s]' % p_: 50 for p_ in (
+                                'lazy_required', 'provided_hash', 'provided_eq', 'name_hash', 'name_bool', 'required_hash', 'required_eq',
+                                'uncached_entry', 'uncached_exit', 'spec_weakref', 'spec_subscribe', 'providedBy_descr', 'provides_descr',
+                                'conform', 'factory', 'value_del', 'generation_attr', 'generation_attr_2nd', 'ro_attr', 'super_self')}),
     rule='Fault model = callback points (every place where foreign Python code can run while a lookup is on the stack: lazy '
          'required, provided/name/required __hash__/__eq__/__bool__, overridden _uncached_* at entry and exit, spec weakref/'
          'subscribe, __providedBy__/__provides__/__conform__ descriptors, factories, __del__ of a cached value, _generation on '
@@ -405,7 +413,9 @@ PLANS['C11'] = dict(
          'later); leak meters; thread stress with generation-stamped values and a quiescence oracle; mutation-window race (fresh provided '
          'interfaces registered and removed at every level of a chain and re-basing to another parent, statement-level preemption inside the '
          'mutation functions, probes by the mutator right after each mutation, permanent entries that every concurrent answer must contain); '
-         'subscription race.  Every reached cell is '
+         'subscription race; a lookup thread scheduled in the middle of rebuild() and rebuild() among the free-running mutations '
+         '(answers after it has returned); super subclasses with a computed __self__ (the factory argument must be alive); a computed '
+         'registry resolution order.  Every one of the 20 callback points has its own floor.  Every reached cell is '
          'non-trivial; distinct = distinct (flavour, point, action, entry) cells + leak scenarios + thread configurations.',
     assumptions=['GIL: preemption happens only where Python code runs', 'valgrind/ASan legs decide reads and freed-memory writes (thorough)'],
 )
